@@ -107,7 +107,7 @@ var ops = []*opDef{
 	bin("&", clsBitAnd, true, sII_I), bin("^", clsBitXor, true, sII_I), bin("|", clsBitOr, true, sII_I),
 	bin("&&", clsLand, true, sBB_B), bin("||", clsLor, true, sBB_B),
 	bin(".", clsConcat, true, sig{[]typ{tS, tS}, tS}, sig{[]typ{tS, tI}, tS}, sig{[]typ{tI, tS}, tS}),
-	bin("??", clsCoalesce, true, sig{[]typ{tN, tI}, tI}, sig{[]typ{tI, tI}, tI}, sig{[]typ{tN, tS}, tS}, sig{[]typ{tN, tB}, tB}),
+	bin("??", clsCoalesce, true, sig{[]typ{tN, tI}, tI}, sig{[]typ{tI, tI}, tI}, sig{[]typ{tN, tS}, tS}, sig{[]typ{tS, tS}, tS}, sig{[]typ{tN, tB}, tB}),
 	{sym: "?:", kind: kTernary, cls: clsTernary, core: true, sigs: []sig{{[]typ{tB, tI, tI}, tI}, {[]typ{tB, tS, tS}, tS}, {[]typ{tB, tB, tB}, tB}}},
 	{sym: "?:elvis", kind: kElvis, cls: clsTernary, sigs: []sig{{[]typ{tI, tI}, tI}, {[]typ{tB, tB}, tB}}},
 	{sym: "=", kind: kAssign, cls: clsAssign, core: true, sigs: []sig{{[]typ{tI}, tI}, {[]typ{tB}, tB}, {[]typ{tS}, tS}}},
